@@ -3,6 +3,7 @@ import TemplVerif.Drive.C17
 import TemplVerif.Drive.C04
 import TemplVerif.Drive.C01
 import TemplVerif.Drive.C03
+import TemplVerif.Drive.C05
 import Std.Data.HashMap
 open TemplVerif TemplVerif.Drive
 
@@ -12,6 +13,7 @@ def dispatch (ws : List String) : Verdict :=
   | "C04" :: rest => C04.handle rest
   | "C01" :: rest => C01.handle rest
   | "C03" :: rest => C03.handle rest
+  | "C05" :: rest => C05.handle rest
   | _ => .badOp
 
 structure Stats where
